@@ -280,9 +280,11 @@ def run(ctx: Any) -> None:
         ("m2", False, []),
         ("m3", True, [("a", "int", False, False), ("e", "enum", True, False), ("v", "dc", True, True)]),
         ("m4", True, []),
+        ("m5", True, []),   # twins of m4 / m2: a URL naming the twin with metadata naming the original conforms in everything but the name
+        ("m6", False, []),
     ]
     services = [curated]
-    for _ in range(6 if thorough else 3):
+    for _ in range(6 if thorough else 2):
         ms = []
         for j in range(4):
             ms.append((f"m{j}", j >= 2 and rng.random() < 0.7, random_params(rng.choice([1, 2, 3, 3, 4, 5]))))
@@ -526,7 +528,7 @@ def run(ctx: Any) -> None:
                 "method_key": ("name", m), "version": "ok", "rows": 1, "url": m, "endpoint": "init" if st else "unary",
                 "cols": [[f.name, f.type, f.nullable, S.KINDS[p[1]][3]] for f, p in zip(declared, ps)],
             }
-            others = [(om, ost) for om, ost, _ in methods if om != m][:2]
+            others = sorted(((om, ost) for om, ost, ops in methods if om != m), key=lambda x: (x[1] != st, x[0] not in ('m5', 'm6')))[:2]
             perts = _perturbations(ps, others, st)
             ctx.tally("n_params", len(ps))
             for beh in behs:
@@ -541,13 +543,13 @@ def run(ctx: Any) -> None:
                 ctx.tally("perturbation", label.split("[")[0].split("@")[0].split("=")[0].split("->")[0])
                 n_single += 1
                 check_case(srv, client, table_term, decl, d1, "ok", [label], sigs)
-                if rng.random() < 0.25:
+                if rng.random() < (0.25 if thorough else 0.12):
                     check_case(srv, client, table_term, decl, d1, rng.choice([b for b in behs if b != "ok"]), [label], sigs)
             # pairs
             if thorough and si == 0:
                 pairs = [(a, b) for a in range(len(perts)) for b in range(len(perts)) if a != b]
             else:
-                k = 400 if thorough else 15
+                k = 150 if thorough else 8
                 pairs = [(rng.randrange(len(perts)), rng.randrange(len(perts))) for _ in range(k)]
             # targeted: every value-conversion failure combined with every shape / nullness perturbation of another column
             conv_labels = [i for i, (lb, _) in enumerate(perts) if lb.startswith(("dc-", "enum-unknown"))]
@@ -557,7 +559,7 @@ def run(ctx: Any) -> None:
                 must = [(a, b) for a, b in targeted if perts[a][0].startswith(("dc-invalid-utf8", "dc-truncated-body"))]
                 rest = [x for x in targeted if x not in must]
                 rng.shuffle(rest)
-                targeted = must + rest[:30]
+                targeted = must + rest[:12]
             for a, b in pairs + targeted:
                 d1 = perts[a][1](valid)
                 d2 = perts[b][1](d1) if d1 is not None else None
